@@ -7,10 +7,10 @@ package main
 // while the preemption budget lasts, before any visible operation.
 
 import (
-	"strings"
 	"fmt"
 	"go/types"
 	"math/big"
+	"strings"
 
 	"golang.org/x/tools/go/ssa"
 )
@@ -25,6 +25,7 @@ type Thread struct {
 	offers  []chanOffer // select/chan offers while parked
 	// completion by a peer (rendezvous)
 	completed int   // index of the offer completed by a peer, -1 if none
+	timerWait bool  // yielded while only a timer could let it continue (lazy timers)
 	recvVal   Value // value delivered to a completed recv offer
 	recvOk    bool
 	exited    chan struct{}
@@ -186,15 +187,66 @@ func (m *Machine) enabled(t *Thread) bool {
 
 // others returns the enabled threads other than self in round-robin order after self.
 func (m *Machine) others(self *Thread) []*Thread {
-	var out []*Thread
+	var out, timerOnly []*Thread
+	lazy := m.ghost["lazytimers"] != nil
 	n := len(m.threads)
 	for i := 1; i <= n; i++ {
 		t := m.threads[(self.id+i)%n]
 		if t != self && m.enabled(t) {
+			if lazy && !m.enabledNoTimer(t) {
+				// "time is slow": a thread that can only continue by letting a timer fire runs
+				// after every thread that has work to do (earlier firing costs delays)
+				timerOnly = append(timerOnly, t)
+				continue
+			}
 			out = append(out, t)
 		}
 	}
-	return out
+	return append(out, timerOnly...)
+}
+
+// enabledNoTimer: t is enabled without any timer having to fire.
+func (m *Machine) enabledNoTimer(t *Thread) bool {
+	if t.timerWait {
+		return false
+	}
+	m.ignoreTimers = true
+	defer func() { m.ignoreTimers = false }()
+	return m.enabled(t)
+}
+
+// timerPatience is called when the current thread could continue only by letting a timer fire
+// (lazy timers): threads that have work to do run first; firing the timer at once instead costs
+// as many delays as there are such threads. Returns true when the timer is to fire now.
+func (m *Machine) timerPatience() bool {
+	if m.ghost["lazytimers"] == nil || m.inInit > 0 {
+		return true
+	}
+	self := m.cur
+	var cands []*Thread
+	for _, t := range m.others(self) {
+		if m.enabledNoTimer(t) {
+			cands = append(cands, t)
+		}
+	}
+	if len(cands) == 0 {
+		return true
+	}
+	n := len(cands) + 1
+	if n > m.preemptLeft+1 {
+		n = m.preemptLeft + 1
+	}
+	k := m.choose(n, "timer")
+	m.preemptLeft -= k
+	if k == len(cands) {
+		return true
+	}
+	self.timerWait = true
+	self.pred = func() bool { return true }
+	m.switchTo(self, cands[k])
+	self.pred = nil
+	self.timerWait = false
+	return false
 }
 
 // pickNext chooses the thread to run next among cands (round-robin order). With delay-bounded
@@ -387,6 +439,9 @@ func (m *Machine) canRecv(ch *ChanV) bool {
 		return false
 	}
 	if ch.isTimer() {
+		if m.ignoreTimers {
+			return len(ch.buf) > 0
+		}
 		// bounded number of timer events per path (stated bound; keeps ticker loops finite)
 		if m.timerFires >= m.eng.cfg.MaxTimerFires {
 			return len(ch.buf) > 0
@@ -509,6 +564,11 @@ func (m *Machine) chanRecv(ch *ChanV, elem types.Type) (Value, bool) {
 			return self.recvVal, self.recvOk
 		}
 	}
+	for ch.isTimer() && len(ch.buf) == 0 && !m.timerPatience() {
+	}
+	if !m.canRecv(ch) {
+		return m.chanRecv(ch, elem)
+	}
 	return m.doRecv(ch, elem)
 }
 
@@ -567,6 +627,14 @@ func (m *Machine) selectInstr(fr *frame, instr *ssa.Select) Value {
 	}
 	for {
 		rd := ready()
+		if len(rd) > 0 && m.ghost["lazytimers"] != nil {
+			m.ignoreTimers = true
+			noTimer := ready()
+			m.ignoreTimers = false
+			if len(noTimer) == 0 && !m.timerPatience() {
+				continue
+			}
+		}
 		if len(rd) > 0 {
 			i := rd[m.choose(len(rd), "select")]
 			c := cases[i]
